@@ -19,7 +19,9 @@ def workload(tier: str, seed: int) -> tuple[list[dict], dict]:
     c2, st2 = lcase.s2_cases(defs, seed, per_def=s2)
     stats.update(st2)
     stats["definitions"] = len(defs)
-    return cases + c2, stats
+    c3, st3 = lcase.evidence_subset_cases(tier, seed)
+    stats["evidence_subsets_of_small_fork_definitions"] = st3
+    return cases + c2 + c3, stats
 
 
 def main(tier: str, seed: int) -> int:
@@ -28,7 +30,9 @@ def main(tier: str, seed: int) -> int:
         rule="definitions: corpus-63 + exhaustive-small F_core skeletons + seeded random F_core "
              "+ F_edge (E1/E2/E3/multi-start/multi-event-break); job sets: S1 = complete "
              "executions with loops run 1..k (k=2, thorough also 3), S2 = random strict subsets "
-             "of L_3 classified S2-eq/S2-neq by an independently computed evidence model; each "
+             "of L_3 classified S2-eq/S2-neq by an independently computed evidence model, plus "
+             "EVERY non-empty subset of the executions of small fork definitions (3-branch OR, "
+             "AND of XORs, XOR over OR, two ORs, OR in a loop; sampled where > 127/1100); each "
              "S1 set under 2 presentations/uuid schedules. distinct = distinct (definition "
              "normal form, stratum, k, size); trivial = definitions without fork or loop")
     chk.assumptions = [
